@@ -7,16 +7,22 @@ def sh(cmd, cwd, timeout=900):
     p = subprocess.run(cmd, cwd=cwd, env=ENV, shell=True, capture_output=True, text=True, timeout=timeout)
     return p.returncode, (p.stdout + p.stderr)
 head = subprocess.run("git -C /repo rev-parse --short HEAD", shell=True, capture_output=True, text=True).stdout.strip()
+skip_until = os.environ.get("FROM", "")
 ids = sys.argv[1:] or sorted(d for d in os.listdir("/verif/seeded") if re.fullmatch(r"C\d\d[a-z]", d))
 for sid in ids:
+    if skip_until and sid < skip_until:
+        continue
     src = "/verif/seeded/" + sid
     mp = src + "/meta.json"
     meta = json.load(open(mp))
     if str(meta.get("status_on_final_tree", "")).startswith("obsolete"):
         print(sid, "obsolete (recorded)")
         continue
-    m = re.search(r"demo `([^`]*)`", meta.get("confirmed_by", ""))
+    m = re.search(r"`(go test [^`]*)`", meta.get("confirmed_by", ""))
     demo = m.group(1) if m else None
+    if not demo:
+        print(sid, "no demo command recorded")
+        continue
     wt = "/tmp/rseed/" + sid
     shutil.rmtree(wt, ignore_errors=True)
     os.makedirs(wt)
